@@ -14,5 +14,5 @@ CONSTANTS
   NameStyles = {"alpha"}
   MaxSrc = 4
   EmitFile = "vectors.ndjson"
-INVARIANTS FnWalkIsLLVM FnIdempotent ModBuiltCorrect ModParsedTotal ModParsedCorrect ModIdempotent ModPrintedAgree
+INVARIANTS FnWalkIsLLVM FnIdempotent FnInsertShifts ModBuiltCorrect ModParsedTotal ModParsedCorrect ModIdempotent ModPrintedAgree
 CHECK_DEADLOCK FALSE
